@@ -38,6 +38,15 @@ def may_raise(node: ast.AST) -> bool:
 READ_ONLY_PROBES = {'stat', 'lstat', 'exists', 'is_file', 'isfile', 'getsize', 'getmtime'}
 
 
+def _anc12(mod: Any, n: ast.AST, stop: Any) -> List[ast.AST]:
+    out = []
+    p = mod.parents.get(n)
+    while p is not None and p is not stop:
+        out.append(p)
+        p = mod.parents.get(p)
+    return out
+
+
 def run(ctx: Any, prog: Program) -> None:
     core = prog.module('__init__')
     bsp = prog.module('bsp')
@@ -262,6 +271,13 @@ def run(ctx: Any, prog: Program) -> None:
     p = g.find_path_flags(g.entry, {g.exit.id, g.raise_.id}, removed_nodes={n.id for n in unlink_nodes}, removed_edges=removed_edges)
     ctx.check('C12.W3', p is None, core, ex, 'a path leaves __exit__ without having replaced the destination and without trying to unlink the temp file, so a handled '
               'failure leaves tmp_N behind' + (': ' + g.describe(p) if p else ''), func='AtomicWriter.__exit__', text='unlink on every non-committing exit')
+    # the handle is detached from the writer before (or together with) closing it: if the close raises - a final flush on a full disk - the
+    # finally branch unlinks the temp name, and a `self.temp` still pointing at the dead handle makes the re-entry branch of make_tempfile unlink
+    # that name AGAIN later, when it may already belong to another writer
+    for c_ in walk_no_nested(ex):
+        if isinstance(c_, ast.Call) and isinstance(c_.func, ast.Attribute) and c_.func.attr in ('__exit__', 'close') and dotted(c_.func.value) == 'self.temp':
+            ctx.check('C12.W3', False, core, c_, f'`{U(c_)[:50]}` closes the handle through self.temp and clears the attribute only afterwards: when the close raises, self.temp keeps naming a temp file that the '
+                      'cleanup has already unlinked - re-entering the writer unlinks that name a second time (by then possibly another writer\'s file)', func='AtomicWriter.__exit__', text='handle detached before it is closed')
     # W6: once replace() has succeeded the temp name is no longer this writer's: another writer in the same directory may already have created
     # a file under it (the exclusive open succeeds again as soon as the name is free).  No path from a successful replace() may reach an unlink.
     ctx.rule('C12.W6', 'after a successful replace() the temp name is not touched again (no unlink on the committed path)', floor=1)
@@ -476,6 +492,18 @@ def run(ctx: Any, prog: Program) -> None:
     cands = [c for t in withs for c in t[2]]
     aw_calls = [c for c in cands if _is_aw(c)]
     handle = item.optional_vars.id if isinstance(item.optional_vars, ast.Name) else None
+    # leaving the `with` body normally IS the commit: a `return` in the middle of it - before everything has been written - makes __exit__ see
+    # `exc_type is None` and replace the destination with what there is so far (an empty or half-written file).  Abandoning a save has to raise.
+    ctx.rule('C12.W8', 'the body of `with AtomicWriter(...)` in BSP.save is left early only by an exception, never by return/break', floor=1)
+    early = []
+    for r_ in [x for st in w.body for x in ast.walk(st) if isinstance(x, (ast.Return, ast.Break)) and not any(isinstance(a_, (ast.FunctionDef, ast.Lambda, ast.For, ast.While)) and isinstance(x, ast.Break) for a_ in _anc12(bsp, x, w))]:
+        if any(isinstance(a_, (ast.FunctionDef, ast.AsyncFunctionDef, ast.Lambda)) for a_ in _anc12(bsp, r_, w)):
+            continue
+        later_writes = [c for st in w.body for c in ast.walk(st) if isinstance(c, ast.Call) and isinstance(c.func, ast.Attribute) and c.func.attr in ('write', 'writelines') and c.lineno > r_.lineno]
+        if later_writes:
+            early.append(r_)
+    ctx.check('C12.W8', not early, bsp, early[0] if early else w, f'BSP.save leaves the `with AtomicWriter` block by `{U(early[0]) if early else ""}` before the file is complete: that is a clean exit, so the writer commits - '
+              'the destination is replaced by the (still empty) temp file instead of being left alone', func='BSP.save', text='with-body left only by completion or exception')
     kw = {k.arg: k.value for k in aw_calls[0].keywords}
     ok = handle is not None and isinstance(kw.get('is_bytes'), ast.Constant) and kw['is_bytes'].value is True
     ctx.check('C12.W5', ok, bsp, w, 'BSP.save must bind the AtomicWriter handle and open it in bytes mode', func='BSP.save', text='with AtomicWriter(..., is_bytes=True) as file')
@@ -502,6 +530,8 @@ def run(ctx: Any, prog: Program) -> None:
 
 
 MUTANTS = [
+    {'id': 'save_returns_inside_the_with_block', 'file': 'bsp.py', 'find': "            if self.version is None:\n                raise ValueError('No version specified for BSP!')", 'replace': "            if self.version is None:\n                return", 'expect': 'C12.W8'},
+    {'id': 'exit_closes_through_attribute', 'file': '__init__.py', 'find': "                temp, self.temp = self.temp, None\n                temp.__exit__(exc_type, exc_value, tback)", 'replace': "                self.temp.__exit__(exc_type, exc_value, tback)\n                self.temp = None", 'expect': 'C12.W3'},
     {'id': 'opened_name_not_recorded_after_collision', 'file': '__init__.py', 'find': "        for i in _itertools.count(start=1):\n            self._temp_name = self.filename.with_name(f'tmp_{i}')\n            try:\n                if self.is_bytes:  # type checkers can't narrow self from this!\n                    self.temp = self._temp_name.open('xb')  # type: ignore\n                else:\n                    self.temp = self._temp_name.open('xt', encoding=self.encoding)  # type: ignore\n                break\n            except FileExistsError:\n                pass\n", 'replace': "        self._temp_name = temp_name = self.filename.with_name('tmp_1')\n        for i in _itertools.count(start=2):\n            try:\n                if self.is_bytes:\n                    self.temp = temp_name.open('xb')  # type: ignore\n                else:\n                    self.temp = temp_name.open('xt', encoding=self.encoding)  # type: ignore\n                break\n            except FileExistsError:\n                temp_name = self.filename.with_name(f'tmp_{i}')\n", 'expect': 'C12.W4'},
     {'id': 'ok_opened_name_recorded_after_collision', 'file': '__init__.py', 'find': "        for i in _itertools.count(start=1):\n            self._temp_name = self.filename.with_name(f'tmp_{i}')\n            try:\n                if self.is_bytes:  # type checkers can't narrow self from this!\n                    self.temp = self._temp_name.open('xb')  # type: ignore\n                else:\n                    self.temp = self._temp_name.open('xt', encoding=self.encoding)  # type: ignore\n                break\n            except FileExistsError:\n                pass\n", 'replace': "        self._temp_name = temp_name = self.filename.with_name('tmp_1')\n        for i in _itertools.count(start=2):\n            try:\n                if self.is_bytes:\n                    self.temp = temp_name.open('xb')  # type: ignore\n                else:\n                    self.temp = temp_name.open('xt', encoding=self.encoding)  # type: ignore\n                break\n            except FileExistsError:\n                self._temp_name = temp_name = self.filename.with_name(f'tmp_{i}')\n", 'expect': None, 'refuse_ok': True},
     {'id': 'enter_unlinks_on_failed_tempfile', 'file': '__init__.py', 'find': "        self.make_tempfile()\n        assert self.temp is not None", 'replace': "        try:\n            self.make_tempfile()\n        except BaseException:\n            if self._temp_name is not None:\n                self._temp_name.unlink()\n            raise\n        assert self.temp is not None", 'expect': 'C12.W4'},
